@@ -393,7 +393,7 @@ def run(ck):
                          "the switch when the link stopped, and is not replayed when the link starts again: the incoming HTLC "
                          "and its circuit dangle (%s at line %d), plan %s" % (v["invariant"], line - a, DIRECTED[plan][0]),
                          files={"trace.ndjson": one}, text=ctx)
-        elif (plan == "b_0.ndjson" and dangling) or validate(ck, one, True, "val_%d_o3" % attempt)["ok"]:
+        elif (plan == "b_0.ndjson" and v["invariant"] == "invariant QRules") or validate(ck, one, True, "val_%d_o3" % attempt)["ok"]:
             # the directed F17 schedule, or a trace that the named deviation O3 alone explains
             ck.violation(O3_KEY, o3_text,
                          files={"trace.ndjson": one, "O3_plan.ndjson": os.path.join(SPEC, "repro", "O3_plan.ndjson")}, text=ctx)
